@@ -91,8 +91,8 @@ var jsShapes = map[string]string{
 	"pushderived": `function transform_entities(entities) { var n = entities.length; for (var i = 0; i < n; i++) { var e = entities[i]; var d = NewEntity(); SetId(d, GetId(e).replace(":e", ":d")); d["Properties"]["from"] = GetId(e); entities.push(d); } return entities; }`,
 	// a sub-entity as a property value, built with the documented helpers
 	"subentity": `function transform_entities(entities) { for (e of entities) { var s = NewEntity(); SetId(s, GetId(e) + "-sub"); SetProperty(s, "http://x/", "w", 1); e["Properties"]["sub"] = s; } return entities; }`,
-	"identity":    `function transform_entities(entities) { return entities; }`,
-	"dropeven":    `function transform_entities(entities) { var r = []; for (e of entities) { var id = GetId(e); var n = parseInt(id.substring(id.indexOf(":e")+2)); if (n % 2 == 1) { r.push(e); } } return r; }`,
+	"identity":  `function transform_entities(entities) { return entities; }`,
+	"dropeven":  `function transform_entities(entities) { var r = []; for (e of entities) { var id = GetId(e); var n = parseInt(id.substring(id.indexOf(":e")+2)); if (n % 2 == 1) { r.push(e); } } return r; }`,
 }
 
 // C10Config is one point of the configuration box.
